@@ -601,8 +601,8 @@ def main():
     mismatches += m; oracle_viol += ov; oracle_known += ok; errors += er
 
     # ---------------- generated cases (tie)
-    ncases = 400 if tiername == "quick" else 6000
-    nshards = 4 if tiername == "quick" else 12
+    ncases = 400 if tiername == "quick" else 40000
+    nshards = 4 if tiername == "quick" else 16
     rng = random.Random(seed * 7919 + 19)
     shards = [[] for _ in range(nshards)]
     for i in range(ncases):
@@ -772,6 +772,11 @@ def tsan_run(seed):
                                   env={"TSAN_OPTIONS": "halt_on_error=0 report_signal_unsafe=0 second_deadlock_stack=1"})
         info["ran"] = True
         info["cases"] = len(cases)
+        # the instrumented binary must produce the same logs as the normal one (sanity: it really ran the scripts)
+        normal, nerr, _ = run_real(str(hd / "C19_proc"), "fiber", cf, "tsan_ref", timeout=900)
+        if real is not None and normal is not None:
+            info["logs_identical_to_uninstrumented_run"] = (real == normal)
+            info["log_lines"] = sum(len(v) for v in real.values())
         info["reports"] = log.count("WARNING: ThreadSanitizer")
         info["first_report"] = (log[log.find("WARNING: ThreadSanitizer"):][:1500] if info["reports"] else "")
         info["note"] = ("supporting evidence only: libgatery_core.a / libgatery_scl.a are NOT TSan-instrumented (only the harness TU and header-inline "
